@@ -77,6 +77,9 @@ STEALS = {'__Pyx_ErrRestore': (0, 1, 2), '__Pyx_ErrRestoreInState': (1, 2, 3), '
           '__Pyx_ErrRestoreWithState': (0, 1, 2)}
 
 
+UNROLL = 3
+
+
 def T():
     return int(os.environ.get('VF_QTIMEOUT', '120'))
 
@@ -279,7 +282,7 @@ def check_kernel(fn):
     out = []
     t0 = time.time()
     try:
-        ex, env = _B.new_exec(unroll=3)
+        ex, env = _B.new_exec(unroll=UNROLL)
         tr = Tracker(ex, env)
         tr.install()
         for g in ('_Py_NoneStruct', '_Py_TrueStruct', '_Py_FalseStruct'):
@@ -370,7 +373,7 @@ def check_kernel(fn):
         out.append(d3)
     if ex.unwind:
         r4, _, s4 = solve.check(pre + [z3.Or(*[u[0] for u in ex.unwind])], T())
-        out.append(dict(name='%s: paths beyond the loop unrolling bound 3 exist (bounded claim)' % fn, s=s4, mandatory=False, status='witness' if r4 == 'sat' else 'proved'))
+        out.append(dict(name='%s: paths beyond the loop unrolling bound %d exist (bounded claim)' % (fn, UNROLL), s=s4, mandatory=False, status='witness' if r4 == 'sat' else 'proved'))
     r5, _, s5 = solve.check(pre + [rg, ret.bv != 0], T())
     out.append(dict(name='%s: reach: a successful return' % fn, s=s5, mandatory=True, status={'sat': 'witness', 'unsat': 'vacuous'}.get(r5, 'inconclusive')))
     r6, _, s6 = solve.check(pre + [rg, ret.bv == 0], T())
@@ -563,13 +566,14 @@ def replay(rep, cex):
 
 
 def run(rep, tier, only=None):
-    global _B
+    global _B, UNROLL
     snapshot.activate()
+    UNROLL = 3 if tier == 'quick' else 6
     _B = harness.build_template('c35t', TEMPLATE)
     jobs = [k for k in KERNELS if not only or only in k]
     rep.functions += ['generated code of %d def functions (attribute access and calls, with statement, iterator unpacking, try/finally, try/except, conditional binding, for loop) as emitted by the '
                       'real Cython, with the real Py_INCREF/Py_DECREF/Py_XDECREF/__Pyx_*DECREF* code acting on ob_refcnt [%s]' % (len(KERNELS), build.sha(_B.cfile))]
-    rep.bounds += ['every combination of success/failure of every fallible C-API call in the kernel (symbolic flags), any initial reference counts, loops unrolled 3 times',
+    rep.bounds += ['every combination of success/failure of every fallible C-API call in the kernel (symbolic flags), any initial reference counts, loops unrolled %d times' % UNROLL,
                    'ownership contracts: %d functions returning a new reference or NULL, indirect slot calls (tp_iternext) returning a new reference or NULL with/without an exception, '
                    'out-parameter functions (__Pyx_ErrFetch, __Pyx_ExceptionSave, __Pyx_GetException), stealing functions (__Pyx_ErrRestore, __Pyx_ExceptionReset)' % len(NEWREF),
                    'outside: container-building code (tuple/list/dict stealing item references), argument-parsing wrappers, generators, cdef classes, closures, memoryviews']
